@@ -402,9 +402,14 @@ def finish(prop, pid, tier, seed, cfg, results, worker_fail, ncases, wall):
                 unlisted.append((r, v))
                 info['disagreements'].remove(dg)
                 path = os.path.join(OUT, 'replay', '%s-s%d-i%d.json' % (pid, seed, r['i']))
+                rcase = r.get('case')
+                if rcase is None:
+                    rcase = prop.gen_case(case_rng(pid, seed, r['i']), r['i'], tier)
+                    if isinstance(rcase, dict):
+                        rcase.setdefault('index', r['i'])
                 with open(path, 'w') as f:
                     json.dump({'property': pid, 'seed': seed, 'tier': tier,
-                               'index': r['i'], 'case': r.get('case'),
+                               'index': r['i'], 'case': rcase,
                                'violation': v, 'replay_mode': kind}, f,
                               indent=1, default=str)
                 if len(replays) < 10:
@@ -482,11 +487,51 @@ def replay(pid, path):
     case = rep['case']
     if hasattr(prop, 'setup'):
         prop.setup(rep.get('tier', 'quick'))
-    res = prop.run_case(case)
+    if case is None and rep.get('index') is not None:
+        case = prop.gen_case(case_rng(pid, rep.get('seed', 0), rep['index']),
+                             rep['index'], rep.get('tier', 'quick'))
+        if isinstance(case, dict):
+            case.setdefault('index', rep['index'])
+    mode = rep.get('replay_mode')
+    if mode in ('real-mounts', 'fresh-interpreter'):
+        # the violation was seen in that kind of replay only: replay it there
+        inp = os.path.join(OUT, 'work', 'replay-%s-%d.in.json' % (pid, os.getpid()))
+        outp = inp.replace('.in.json', '.out.json')
+        os.makedirs(os.path.dirname(inp), exist_ok=True)
+        with open(inp, 'w') as f:
+            json.dump([{'i': rep.get('index', 0), 'case': case}], f, default=str)
+        env = dict(os.environ)
+        env['PYTHONPATH'] = VERIF + os.pathsep + env.get('PYTHONPATH', '')
+        env['PYTHONDONTWRITEBYTECODE'] = '1'
+        env['PYTHONUTF8'] = '1'
+        env.setdefault('PYTHONHASHSEED', '0')
+        cmdline = (['unshare', '-m', '--propagation', 'private', sys.executable,
+                    '-m', 'vf.realrun'] if mode == 'real-mounts' else
+                   [sys.executable, '-m', 'vf.realrun', '--cold']) + [pid, inp, outp]
+        try:
+            subprocess.run(cmdline, env=env, cwd=VERIF, capture_output=True,
+                           timeout=900)
+            rr = json.load(open(outp))[0]
+        except Exception as e:
+            print('INCONCLUSIVE property=%s reason=%s replay failed: %r' % (pid, mode, e))
+            return 2
+        finally:
+            for x in (inp, outp):
+                try:
+                    os.unlink(x)
+                except OSError:
+                    pass
+        res = {'verdict': rr.get('verdict'), 'why': rr.get('why'),
+               'violations': [{'mechanism': '%s:%s' % (mode, m), 'detail': {}}
+                              for m in rr.get('mechanisms') or []]}
+    else:
+        res = prop.run_case(case)
     known = load_known()
     bad = 0
     for v in res.get('violations') or []:
-        kf = known_match(pid, v.get('mechanism'), known)
+        kf = known_match(pid, v.get('mechanism'), known) or known_match(
+            pid, (v.get('mechanism') or '').split(':', 1)[-1]
+            if mode in ('real-mounts', 'fresh-interpreter') else None, known)
         if kf:
             print('KNOWN-FINDING: property=%s %s' % (pid, kf.get('what')))
         else:
